@@ -175,19 +175,29 @@ def write_replay(check, sched, viol, digest, minimised_from=None):
 
 
 def determinism_probe(check, known, seed, tier, n=2):
-    """same seed twice in this process: event-log digests must be identical"""
+    """same seed twice in this process: event-log digests must be identical. Returns (message, violation) - when the two
+    executions differ because one of them violates the property (state outside the run survived in the library), that is
+    reported as a violation whose replay executes the schedule `repeat` times in one process."""
     for idx in range(n):
         rk = run_key(seed, check.pid, idx)
         ds = []
+        rs = []
         for _ in range(2):
             sched = check.gen(rk, tier, idx)
             sched.update(rk=rk, seed=seed, run=idx, property=check.pid)
             s1 = json.dumps(sched, sort_keys=True, default=str)
             r = run_one(check, sched, known)
+            rs.append((sched, r))
             ds.append((s1, r["digest"], r["viol"] and r["viol"]["oracle"], r["error"]))
         if ds[0] != ds[1]:
-            return "run %d of seed %d is not reproducible: %r vs %r" % (idx, seed, ds[0][1:], ds[1][1:])
-    return None
+            for k, (sched, r) in enumerate(rs):
+                if r["viol"] and not rs[1 - k][1]["viol"] and not r["error"]:
+                    sched = dict(sched, repeat=k + 1)
+                    r["viol"]["msg"] = ("[only in execution %d of 2 identical executions in one process: state outside the run "
+                                        "(module / class level) survives in the library] " % (k + 1)) + r["viol"]["msg"]
+                    return None, (sched, r)
+            return "run %d of seed %d is not reproducible: %r vs %r" % (idx, seed, ds[0][1:], ds[1][1:]), None
+    return None, None
 
 
 def run_check(check, tier, seed=None, nruns=None, workers=None, budget=None, write_evidence=True, quiet_out=False):
@@ -209,12 +219,18 @@ def run_check(check, tier, seed=None, nruns=None, workers=None, budget=None, wri
     out("check %s tier=%s seed=%d runs<=%d workers=%d budget=%.0fs repo=%s head=%s" % (
         check.pid, tier, seed, nruns, workers, budget, boot.REPO, boot.repo_head()))
     try:
-        msg = determinism_probe(check, known, seed, tier)
+        msg, pviol = determinism_probe(check, known, seed, tier)
     except Exception:
-        msg = "determinism probe crashed\n" + traceback.format_exc()
+        msg, pviol = "determinism probe crashed\n" + traceback.format_exc(), None
     if msg:
         out("HARNESS-ERROR property=%s %s" % (check.pid, msg))
         return 2
+    if pviol:
+        sched, r = pviol
+        path = write_replay(check, sched, r["viol"], r["digest"])
+        out("VIOLATION property=%s replay=%s" % (check.pid, path))
+        out("  oracle=%s signature=%s\n  %s" % (r["viol"]["oracle"], json.dumps(r["viol"]["signature"], sort_keys=True, default=str), r["viol"]["msg"][:700]))
+        return 1
 
     _G.update(check=check, known=known, deadline=t0 + budget)
     blocks = [(lo, min(lo + check.block, nruns), seed, tier) for lo in range(0, nruns, check.block)]
@@ -388,7 +404,8 @@ def replay(check, path):
     boot.assert_repo_used()
     seams.install_clock()
     seams.install_fs()
-    r = run_one(check, doc["schedule"], known, keep_log=True)
+    for _ in range(max(1, int(doc["schedule"].get("repeat", 1)))):
+        r = run_one(check, doc["schedule"], known, keep_log=True)
     v = r["viol"]
     if v and v["oracle"] == doc["oracle"]:
         same = r["digest"] == doc["log_digest"]
